@@ -536,6 +536,11 @@ impl Allocator for Arena {
   }
 
   unsafe fn rewind(&self, pos: ArenaPosition) {
+    // the cursor of a read-only ARENA lives in a read-only mapping
+    if self.ro {
+      return;
+    }
+
     let data_offset = self.data_offset;
     let cap = self.cap;
     let header = self.header_mut();
